@@ -242,6 +242,9 @@ func ruleG4b(c *Ctx) *RuleResult {
 	for _, name := range []string{"rotateSegmentsInner", "rotatePartsInner"} {
 		fn := c.Method("", "Muxer", name)
 		if fn == nil {
+			fn = c.muxerFanOut(strings.TrimSuffix(name, "Inner"))
+		}
+		if fn == nil {
 			r.undecided("Muxer.%s not found", name)
 			continue
 		}
